@@ -146,7 +146,8 @@ def bulk_stats(sl):
 # real ijson / json on enumerated responses
 # ------------------------------------------------------------------------------------------------------------------
 STRINGS = ["x", "", 'a"b', "]", "[", "sort", '"sort":[', "a\\", "é", "}{", ", ", "☃]"]
-AFTER_KEYS = [None, {"vendor": "a"}, {"host.name": "h", "user.name": 7}, {"a": True, "b": 1.5, "c": "x.y"}, {}, {"vendor": None, "payment": "cash"}, {"only": None}]  # missing_bucket: true yields null members
+AFTER_KEYS = [None, {"vendor": "a"}, {"host.name": "h", "user.name": 7}, {"a": True, "b": 1.5, "c": "x.y"}, {}, {"vendor": None, "payment": "cash"}, {"only": None},
+              {"ts": 1609780186123456789, "id": 9007199254740993, "neg": -9007199254740993}, {"price": 0.1, "ratio": -2.675, "big": 1e+22}]  # missing_bucket: true yields null members
 
 
 TOTAL_FORM = [2]
